@@ -114,7 +114,7 @@ class StageBlock(Block):
     def _impulse_nonlinear(self, ssin, inputs, outputs, ss_initial):
         ss = self.extract_ss_dict(ssin)
         if ss_initial is not None:
-            ss[self.stages[0].name]['D'] = ss_initial[self.name][self.stages[0].name]['D']
+            ss[self.stages[0].name]['D'] = ss_initial.internals[self.name][self.stages[0].name]['D']
 
         # report_path is dict(stage: {output: TxN-dim array})
         # lom_path is list[t][stage] in chronological order
